@@ -15,8 +15,19 @@
    [twin_src s e] the MaskedIntReg declaration equivalent to entry e of structure s (entry's element if present,
    else the structure's, pInvalidator and pError included); [limited s e] the KNOWN limitation: e spells out the
    schema default of Visibility / IsDeprecated / ImposedAccessMode / AccessMode / Cachable / Streamable while s
-   declares another value; [seq_results] the children parsed one after the other. *)
-From Cam Require Import Outcome GenApiParse P_C17.
+   declares another value; [seq_results] the children parsed one after the other.
+   Second part (P_C17b.v): [wf_node] the well-formedness of a declared node of ANY modelled kind (all 17
+   constructors of [snode]: Node, Category, Integer, IntReg, MaskedIntReg, Boolean, Command, Enumeration with its
+   entries, Float, FloatReg, String, StringReg, Register, IntSwissKnife, Port, StructReg with its entries - outside
+   the known limitation -, Group of such nodes, nested): literal values inside their types, sniffed references
+   are identifiers, a register's element base carries no pInvalidator; [expect fresh n] what parsing n must
+   produce: the nodes stored on the way (embedded swiss knives, enum entries named $symbolic_freshid), the
+   normalised node(s) handed to the caller (a StructReg: its MaskedIntReg twins [twin_src]), the invalidator
+   registrations (every pInvalidator of a register, in order), the next fresh id; [declared n] the (name, kind)
+   pairs n declares; [rb_tags] Cachable, PollingTime, pInvalidator; [doc_nodes ns] / [doc_invs ns] the nodes /
+   registrations expected for the document with top-level nodes ns; [find_node name l] first node of l with
+   that name. *)
+From Cam Require Import Outcome GenApiParse P_C17 P_C17b.
 From Coq Require Import Permutation.
 
 (* decimal and 0x / 0X hexadecimal literals (both digit cases) of every value of the type convert back to the
@@ -116,3 +127,49 @@ Theorem C17_group_flat : forall fixed,
       Ok (mkStore ns (s_invs st ++ List.concat (map pr_invs rs))))).
 Proof. intros fixed. exact (conj (group_flat fixed) (children_seq fixed)). Qed.
 Print Assumptions C17_group_flat.
+
+(* RegisterBase: element base, Streamable, every address kind in order (Address / pAddress, embedded IntSwissKnife -
+   stored as a node of its own -, pIndex with Offset / pOffset), Length / pLength, AccessMode, pPort, Cachable,
+   PollingTime, pInvalidator*, with the defaults No / RO / WriteThrough; what follows is left untouched *)
+Theorem C17_register_base : forall r k, wf_rb r -> hn rb_tags k -> p_rb (r_rb r k) = Ok ((n_rb r, rb_nodes r), k).
+Proof. exact p_rb_rt. Qed.
+Print Assumptions C17_register_base.
+
+(* round trip for EVERY modelled kind (the code after 70ffa75): parsing the rendered declaration produces exactly
+   the expected nodes, registrations and fresh id; for a StructReg these are the MaskedIntReg twins of
+   C17_struct_desugar, for a Group what its members produce in sequence *)
+Theorem C17_roundtrip : forall n fresh, wf_node n -> parse_node true fresh (render n) = Ok (expect fresh n).
+Proof. exact roundtrip_all. Qed.
+Print Assumptions C17_roundtrip.
+
+(* the nodes handed to the store carry exactly the declared names and kinds (StructReg: one MaskedIntReg per
+   entry; Group: those of its members), and enumeration entries are reachable through their enumeration: its
+   entry list names exactly the stored entry nodes, whose symbolic names are the declared ones *)
+Theorem C17_names_retrievable :
+  (forall n fresh, map name_kind (pr_ret (expect fresh n)) = declared n) /\
+  (forall fresh x,
+     en_entries (n_enumeration fresh x) = map nd_name (pr_stored (expect fresh (SnEnumeration x))) /\
+     map (fun e => ee_symbolic e) (n_enumentries fresh (en_entries x)) = map (fun e => a_name (ee_attr e)) (en_entries x)).
+Proof. exact (conj names_all enum_entries_retrievable). Qed.
+Print Assumptions C17_names_retrievable.
+
+(* the document: for well-formed top-level nodes whose expected node names are pairwise distinct, the build
+   succeeds with exactly the expected store (store_node never hits an occupied slot) and registrations; looking a
+   stored node up by its name gives that node; every declared (name, kind) is found under that name with that kind *)
+Theorem C17_document : forall attrs rd ns,
+  parse_regdesc attrs = Ok rd -> Forall wf_node ns -> NoDup (map nd_name (doc_nodes ns)) ->
+  parse_doc true (Elem T_RegisterDescription attrs (map render ns)) = Ok (rd, mkStore (doc_nodes ns) (doc_invs ns)) /\
+  (forall d, In d (doc_nodes ns) -> find_node (nd_name d) (doc_nodes ns) = Some d) /\
+  (forall n name kind, In n ns -> In (name, kind) (declared n) ->
+     exists d, find_node name (doc_nodes ns) = Some d /\ nd_name d = name /\ kind_code d = kind).
+Proof. exact document. Qed.
+Print Assumptions C17_document.
+
+(* non-vacuity of C17_document: a structure with invalidators on the structure and on an entry, its port and an
+   integer with pValueCopy / pMax / hexadecimal Inc meet every hypothesis *)
+Theorem C17_document_example :
+  exists rd, parse_regdesc example_attrs = Ok rd /\ Forall wf_node example_nodes /\
+    NoDup (map nd_name (doc_nodes example_nodes)) /\ List.length (doc_nodes example_nodes) = 4%nat /\
+    doc_invs example_nodes = [([89], [69; 48]); ([88], [69; 49])].
+Proof. exact document_example. Qed.
+Print Assumptions C17_document_example.
